@@ -221,7 +221,7 @@ META = {
    technique='Coq proof by induction over the ancestor chain against a declarative spec + differential runs on real directory chains with tmpfs device boundaries',
    level_text='Proved in Coq for ancestor chains of any length: the result of discovery is the Manifest of the outermost level reachable without passing a '
               'Manifest that IGNOREs the start path by whole components or lies on another device (C15_outermost, against Spec/FindTop.v); compressed names are '
-              'only tried when allowed; path_starts_with is component-wise (theorem about the translated util.py).',
+              'only tried when allowed; path_starts_with is component-wise (theorem about the translated util.py); read off the specification: in one-file-system mode the returned Manifest - directory and file - and every level passed on the way lie on the device of the start directory (C15_no_manifest_on_another_device).',
    level_note='About Model/FindTop.v over the translated util.path_starts_with and generated name tables; start paths are assumed canonical (relpath is lexical); '
               'error levels (unreadable Manifests) are covered by correspondence only.'),
  'C01': dict(engine='coq+tree', design_ref='DESIGN.md section 5 C01',
